@@ -2310,4 +2310,86 @@ theorem F17f_repaired_finish_reason :
         = oaChatStreamFixed true ((chatCallback parseF17 false [nd sHi, fin] [] 0).map Item.msg ++ [Item.err sBoom]) false := by
   decide
 
+/-! ## Round 7: the runner protocol is what `llmServer.Completion` does (hypothesis discharged on its model) -/
+
+theorem shape_prepend (pre cs : List Chunk) (e : End) (hpre : NoneDone pre) (h : CompletionShape cs e) :
+    CompletionShape (pre ++ cs) e := by
+  have happ : ∀ xs, NoneDone xs → NoneDone (pre ++ xs) := by
+    intro xs hx c hc
+    rcases List.mem_append.mp hc with h1 | h1
+    · exact hpre c h1
+    · exact hx c h1
+  rcases h with h | ⟨h, rfl⟩
+  · cases h with
+    | done init l hnd hl =>
+      rw [← List.append_assoc]
+      exact Or.inl (RunnerOK.done (pre ++ init) l (happ init hnd) hl)
+    | fail cs m hnd => exact Or.inl (RunnerOK.fail _ m (happ cs hnd))
+  · exact Or.inr ⟨happ cs h, rfl⟩
+
+/-- **`CompletionShape` holds of everything the modelled `Completion` hands to the callback**, for every
+    runner body: lines in any order and number, blank and undecodable lines, content on the done line,
+    lines after the done line, token repeats, clean and broken ends, an HTTP failure. -/
+theorem completion_shape (em : Bytes) (httpFail : Bool) (ls : List RLine) (be : BodyEnd) :
+    CompletionShape (completionCall em httpFail ls be).1 (completionCall em httpFail ls be).2 := by
+  have hloop : ∀ (ls : List RLine) (lt : Bytes) (n : Nat),
+      CompletionShape (completionLoop em ls be lt n).1 (completionLoop em ls be lt n).2 := by
+    intro ls
+    induction ls with
+    | nil =>
+      intro lt n
+      cases be
+      · exact Or.inr ⟨(by intro c hc; cases hc), rfl⟩
+      · exact Or.inl (RunnerOK.fail [] em (by intro c hc; cases hc))
+    | cons l rest ih =>
+      intro lt n
+      cases l with
+      | blank => exact ih lt n
+      | bad => exact Or.inl (RunnerOK.fail [] em (by intro c hc; cases hc))
+      | resp c =>
+        have hpre : NoneDone (if c.content.isEmpty then [] else [(⟨c.content, false, 0, 0, 0⟩ : Chunk)]) := by
+          intro x hx
+          split at hx
+          · cases hx
+          · simp at hx; subst hx; rfl
+        simp only [completionLoop]
+        by_cases hrep : (if (trimAscii c.content == lt) = true then n + 1 else 0) > 30
+        · rw [if_pos hrep]; exact Or.inr ⟨(by intro c hc; cases hc), rfl⟩
+        · rw [if_neg hrep]
+          by_cases hd : c.done = true
+          · rw [if_pos hd]; exact Or.inl (RunnerOK.done _ c hpre hd)
+          · rw [if_neg hd]; exact shape_prepend _ _ _ hpre (ih _ _)
+  unfold completionCall
+  split
+  · exact Or.inl (RunnerOK.fail [] em (by intro c hc; cases hc))
+  · exact hloop ls [] 0
+
+/-- **exactly one final message or one error, end to end from the runner's body**: whatever the runner
+    writes, the tree's handlers (every fault, generate and chat, tools or not) stream exactly one
+    terminal item, last, or answer one 500 — `one_final_all` with its hypothesis discharged. -/
+theorem one_final_from_runner_body (v : Variant) (hv : v.incomplete = true) (f : Fault) (raw hasCtx : Bool) (pl : Nat)
+    (parse : Bytes → List Call) (tools hist : Bool) (em : Bytes) (httpFail : Bool) (ls : List RLine) (be : BodyEnd) :
+    let r := completionCall em httpFail ls be
+    (match generateStreamH v f raw hasCtx pl r.1 r.2 with
+      | .error _ => True
+      | .ok items => OneFinal (fun m : GenMsg => m.info.done) items)
+    ∧ (match chatStreamH v f parse tools hist r.1 r.2 with
+      | .error _ => True
+      | .ok items => OneFinal (fun m : ChatMsg => m.info.done) items) := by
+  intro r
+  have h := one_final_all v hv f raw hasCtx pl parse tools hist r.1 r.2 (completion_shape em httpFail ls be)
+  exact ⟨h.1, h.2.1⟩
+
+/-- non-vacuity and the recorded quirk: a `content`+`done` runner line reaches the callback twice (so the
+    text is duplicated downstream); lines after the done line never do; 31 equal tokens end the call
+    with nil and no done chunk -/
+example :
+    completionCall sBoom false [.resp (nd sHi), .blank, .resp ⟨sA, true, 1, 3, 4⟩, .resp (nd sB)] .clean
+      = ([nd sHi, nd sA, ⟨sA, true, 1, 3, 4⟩], .ok)
+    ∧ completionCall sBoom false [.resp (nd sHi), .bad, .resp fin] .clean = ([nd sHi], .err sBoom)
+    ∧ completionCall sBoom false [.resp (nd sHi)] .broken = ([nd sHi], .err sBoom)
+    ∧ (completionCall sBoom false (List.replicate 40 (.resp (nd sA))) .clean).2 = .ok
+    ∧ (completionCall sBoom false (List.replicate 40 (.resp (nd sA))) .clean).1.length = 31
+    ∧ completionCall sBoom true [.resp fin] .clean = ([], .err sBoom) := by decide
+
 end OllamaVerif.C17
